@@ -579,13 +579,6 @@ func (s *nrSim) checkZones(name string, w nrNRTWrite, c *nrCapture, in *nrInputs
 			if boundL < 0 {
 				boundL = 0
 			}
-			// one unit of slack for the float truncation of the safety margin
-			okBound := L*vMilli <= 1000*(boundL+L)
-			okPct := pct == nil || vMilli <= 1000*(zcap**pct/100)
-			if okBound && okPct {
-				r.Probe("zone-amount-checked")
-				continue
-			}
 			// hysteresis: an old amount may be kept when it is within resourceDiffThreshold of the new one
 			var oldQ *resource.Quantity
 			for i := range w.old.Zones {
@@ -595,24 +588,38 @@ func (s *nrSim) checkZones(name string, w nrNRTWrite, c *nrCapture, in *nrInputs
 					}
 				}
 			}
-			if oldQ != nil && oldQ.Cmp(ri.Allocatable) == 0 {
-				lim := boundL
-				if pct != nil && L*(zcap**pct/100) < lim {
-					lim = L * (zcap * *pct / 100)
+			retained := oldQ != nil && oldQ.Cmp(ri.Allocatable) == 0
+			kept := false
+			// allow: within the limit (in 1/12 units; one unit of slack for the float truncation of the safety margin), or
+			// an unchanged old amount that exceeds it by no more than the threshold
+			allow := func(limL int64) bool {
+				if L*vMilli <= 1000*(limL+L) {
+					return true
 				}
-				if float64(L*vMilli)-1000*float64(lim+L) <= float64(L*vMilli)*in.eff.diff {
+				if retained && float64(L*vMilli)-1000*float64(limL+L) <= float64(L*vMilli)*in.eff.diff {
+					kept = true
+					return true
+				}
+				return false
+			}
+			okBound := allow(boundL)
+			okPct := pct == nil || allow(L*(zcap**pct/100))
+			if okBound && okPct {
+				if kept {
 					r.Probe("zone-amount-kept-within-threshold")
-					continue
+				} else {
+					r.Probe("zone-amount-checked")
 				}
+				continue
 			}
 			if !okPct {
-				r.Fail("pct-cap", "zone/"+nrUnit(cpu), "node %s zone %s: %s = %s exceeds the configured cap %d%% of zone capacity %d", name, zn.Name, rn, ri.Allocatable.String(), *pct, zcap)
+				r.Fail("pct-cap", "zone/"+nrUnit(cpu), "node %s zone %s: %s = %s (before the write: %v) exceeds the configured cap %d%% of zone capacity %d (diff threshold %v)", name, zn.Name, rn, ri.Allocatable.String(), oldQ, *pct, zcap, in.eff.diff)
 			}
 			if !cpu && pol == "request" && s.tagMemReq && okPct {
 				s.deferFail("bound", "zone/"+nrUnit(cpu)+"/"+pol, fmt.Sprintf("node %s zone %s: %s = %s exceeds the zone bound (bound*12 = %d)", name, zn.Name, rn, ri.Allocatable.String(), boundL))
 				continue
 			}
-			r.Fail("bound", "zone/"+nrUnit(cpu)+"/"+pol, "node %s zone %s (%d zones): %s = %s exceeds zone capacity %d - margin %d - max(system usage %d, reservation %d)/%d - high-priority share; bound*12 = %d", name, zn.Name, Z, rn, ri.Allocatable.String(), zcap, margin, sys, res, Z, boundL)
+			r.Fail("bound", "zone/"+nrUnit(cpu)+"/"+pol, "node %s zone %s (%d zones): %s = %s (before the write: %v) exceeds zone capacity %d - margin %d - max(system usage %d, reservation %d)/%d - high-priority share; bound*12 = %d", name, zn.Name, Z, rn, ri.Allocatable.String(), oldQ, zcap, margin, sys, res, Z, boundL)
 		}
 	}
 }
